@@ -304,6 +304,9 @@ type c18Params struct {
 	// InitW / InitAt: a write that lands while the first catch-up (fullsync) hands its InitAt-th page to the sink
 	InitW  *c18Op `json:"init_w,omitempty"`
 	InitAt int    `json:"init_at,omitempty"`
+	// Fresh: the join predicates have never been used in the hub when the job first catches up (predicate names of
+	// the history's own), and the graph the history starts from holds the entities but not a single link
+	Fresh bool `json:"fresh,omitempty"`
 }
 
 type c18Hist struct {
@@ -675,6 +678,9 @@ func c18Replay(task engine.SeqTask) (res engine.SeqResult) {
 	}()
 	jw := jWorld()
 	h := jw.W.NewHist()
+	if p.Fresh {
+		h.KeySuffix = "_k" + h.Tag
+	}
 	c := &c18Hist{jw: jw, h: h, shape: p.Shape, latestOnly: p.LatestOnly, first: true, fixLen: map[string]int{}, initW: p.InitW, initAt: p.InitAt, lastRunCommit: -1}
 	jw.Jobs++
 	c.id = fmt.Sprintf("c18-%s-%d", h.Tag, jw.Jobs)
@@ -688,7 +694,9 @@ func c18Replay(task engine.SeqTask) (res engine.SeqResult) {
 		holds := p.Shape.holds(ds)
 		refs := map[string][]string{}
 		for pr, t := range holds {
-			refs[pr] = []string{c18IDs(t)[0]}
+			if !p.Fresh {
+				refs[pr] = []string{c18IDs(t)[0]}
+			}
 		}
 		if err := c.write(c18Op{K: "w", DS: ds, ID: c18IDs(ds)[0], V: 1, Refs: refs}); err != nil {
 			res.HarnessEr = err.Error()
@@ -698,7 +706,9 @@ func c18Replay(task engine.SeqTask) (res engine.SeqResult) {
 	if err := c.write(c18Op{K: "w", DS: "M", ID: "m2", V: 1, Refs: func() map[string][]string {
 		refs := map[string][]string{}
 		for pr, t := range p.Shape.holds("M") {
-			refs[pr] = []string{c18IDs(t)[1]}
+			if !p.Fresh {
+				refs[pr] = []string{c18IDs(t)[1]}
+			}
 		}
 		return refs
 	}()}); err != nil {
@@ -918,7 +928,7 @@ func init() {
 		}
 	})
 	engine.RegisterCheck("C18", func(r *engine.Run) {
-		r.Rule = "SEQ: for every join shape (2 one-hop, 4 two-hop and 8 three-hop direction patterns, a path through the main dataset in the middle, and two declared dependencies sharing a link dataset; declared in JSON and parsed by the real scheduler) and every batch size in the stated set (and, for shapes with an outgoing first hop of at most two hops, also with the source declared LatestOnly): every history up to the stated depth over {7 entity variants per dataset: property change, link to target 1/2/both/none, delete, second entity; run to fixpoint with batch size 1/2, one run whose sink rejects its 1st/2nd call, one run during which a dependency entity is rewired or changed while the sink handles its first call, a hub restart (the job object is otherwise kept from run to run)} starting from a populated graph on which the job has caught up (also with one dependency write - property change or rewiring - landing while that first catch-up is between its pages: the entity it requires must be emitted AFTER the write); every history ends with a run-to-fixpoint (the job is run until its token stops changing) whose emitted entities (recording double around the real DevNullSink) must contain every main entity that changed, every main entity connected now through the join path to a dependency or link entity changed since the previous fixpoint, and - for a first outgoing hop - connected as of the previous fixpoint; emitted entities must be versions of main-dataset entities with the latest version among them; tokens never go back nor beyond the end. distinct = distinct canonical end states"
+		r.Rule = "SEQ: for every join shape (2 one-hop, 4 two-hop and 8 three-hop direction patterns, a path through the main dataset in the middle, and two declared dependencies sharing a link dataset; declared in JSON and parsed by the real scheduler) and every batch size in the stated set (and, for shapes with an outgoing first hop of at most two hops, also with the source declared LatestOnly): every history up to the stated depth over {7 entity variants per dataset: property change, link to target 1/2/both/none, delete, second entity; run to fixpoint with batch size 1/2, one run whose sink rejects its 1st/2nd call, one run during which a dependency entity is rewired or changed while the sink handles its first call, a hub restart (the job object is otherwise kept from run to run)} starting from a populated graph on which the job has caught up (also from a graph without a single link whose join predicates nobody in the hub has used before, and with one dependency write - property change or rewiring - landing while that first catch-up is between its pages: the entity it requires must be emitted AFTER the write); every history ends with a run-to-fixpoint (the job is run until its token stops changing) whose emitted entities (recording double around the real DevNullSink) must contain every main entity that changed, every main entity connected now through the join path to a dependency or link entity changed since the previous fixpoint, and - for a first outgoing hop - connected as of the previous fixpoint; emitted entities must be versions of main-dataset entities with the latest version among them; tokens never go back nor beyond the end. distinct = distinct canonical end states"
 		r.Assumptions = []string{"entity ids are distinct per dataset (an id living in two datasets of the chain is outside)", "apart from the one dependency write injected between two pages of the first catch-up, no write happens while the job runs: the graph as it stands when the job runs is the model's current graph", "track_queries (JavaScript) registration is not exercised, only declared dependencies"}
 		shapes := c18Shapes()
 		type cfg struct {
@@ -949,6 +959,23 @@ func init() {
 				alpha = append(alpha, ob)
 			}
 			engine.RunSeq(r, engine.SeqSpec{Name: fmt.Sprintf("c18-%s-latestonly", s.Name), WorkerArgs: []string{"worker", "c18"}, Alphabet: alpha, Params: params, Depth: depth, Budget: budget})
+		}
+		// the job first catches up while nobody in the hub has ever used its join predicates: links appear afterwards
+		for _, s := range shapes {
+			if len(s.Deps) != 1 || len(s.Deps[0].Joins) > 2 {
+				continue
+			}
+			depth, budget := 2, 40*time.Second
+			if !r.Quick() {
+				depth, budget = 3, 20*time.Minute
+			}
+			params, _ := json.Marshal(c18Params{Shape: s, Batch: 1, Fresh: true})
+			var alpha []json.RawMessage
+			for _, o := range c18Alphabet(s, []int{1}) {
+				ob, _ := json.Marshal(o)
+				alpha = append(alpha, ob)
+			}
+			engine.RunSeq(r, engine.SeqSpec{Name: fmt.Sprintf("c18-%s-unused-predicates", s.Name), WorkerArgs: []string{"worker", "c18"}, Alphabet: alpha, Params: params, Depth: depth, Budget: budget})
 		}
 		// a dependency write that lands while the first catch-up (the fullsync) is between two pages
 		for _, s := range shapes {
